@@ -92,7 +92,9 @@ CLAIMED.update({
                 "(entries of a mapping), sem_identifier_seq_perm (entries of a sequence), engine_seq_perm / "
                 "engine_mapping_perm_truth (transport to the engine). Random rules "
                 "without negation/none-of are compared with shuffled variants (all lists, mappings, sequences, condition operands; "
-                "exhaustive permutations of one list up to 4 members) on the crate.",
+                "exhaustive permutations of one list up to 4 members) on the crate, as loaded and as optimised with the default "
+                "switches; a family of sequences whose entries address one field through different key forms and pattern kinds "
+                "is permuted exhaustively (the optimiser's regrouping keys).",
         "note": TB + "The YAML-level theorems hold where the engine refines the reference (the fragment and exclusions of Properties/C02_all.v); outside it YAML-level permutations are covered by the differential runs.",
         "technique": "Coq proof (Permutation induction over closed forms of the folds; context induction) + differential permutation runs",
     },
@@ -200,8 +202,10 @@ CLAIMED.update({
                 "eight switch sets without matrix); C01_matrix_nested / C01_matrix_quant: the matrix pass with nested blocks and with "
                 "quantifiers whose operands shake_1 shakes safely, scope_quant_all_sound (ALL SIXTEEN switch sets, "
                 "Scope2.c01_scope_quant_all; C01_d15: scope_quant_all_sound_noq without any exclusion for quantifiers over identifiers, "
-                "after the repair D15/D20). The runner marks 70-96 % of the generated rules as inside a proved scope for every "
-                "switch set (the default switches: 1176 of 1340 = 88 %; sets without shake and matrix: all). Outside (the listed classes D13, D16, D17) "
+                "after the repair D15/D20; C01_sh0w / C01_nomatch / C01_final: without the obsolete D14 and D20 hypotheses; C01_wide: the "
+                "union Scope3.c01_scope_wide, the predicate the runner evaluates). The runner marks 92-100 % of the generated rules as "
+                "inside the proved scope for every switch set (the default switches: 1251 of 1340 = 93 %); every generated rule outside it "
+                "is in a listed class (counted per reason in the evidence). Outside (the listed classes D13, D16, D17) "
                 "the model is tied to the crate by the correspondence: "
                 "random rules, forced rules and coverage families x documents x all 16 switch sets, the OPTIMISED TREES compared "
                 "structurally, and every crate-side verdict change must be reproduced by the model AND accepted by the executable "
